@@ -50,9 +50,11 @@ class Collect(ast.NodeVisitor):
         node._mid = self.idx
         self.idx += 1
         skip = False
-        if isinstance(node, (ast.FunctionDef,)):
+        is_func = isinstance(node, ast.FunctionDef)
+        if is_func:
             if node.name in SKIP_FUNCS:
                 skip = True
+            self.func.append(node.name)
         if isinstance(node, ast.Expr) and isinstance(node.value, ast.Constant) and isinstance(node.value.value, str):
             skip = True     # docstring
         if isinstance(node, (ast.Assert, ast.Raise, ast.Import, ast.ImportFrom)):
@@ -60,6 +62,8 @@ class Collect(ast.NodeVisitor):
         if isinstance(node, ast.Call) and isinstance(node.func, ast.Attribute) and node.func.attr in ('warn', 'format'):
             skip = True
         if skip:
+            if is_func:
+                self.func.pop()
             return
         if isinstance(node, ast.BinOp) and type(node.op) in BIN:
             self.sites.append(('binop', node._mid, node.lineno))
@@ -78,7 +82,12 @@ class Collect(ast.NodeVisitor):
             self.sites.append(('swapidx', node._mid, node.lineno))
         if isinstance(node, ast.If):
             self.sites.append(('ifnot', node._mid, node.lineno))
+        if isinstance(node, (ast.Assign, ast.AugAssign)) or (isinstance(node, ast.Expr) and isinstance(node.value, ast.Call)):
+            if self.func and self.func[-1] != '__init__':
+                self.sites.append(('delstmt', node._mid, node.lineno))
         super().generic_visit(node)
+        if is_func:
+            self.func.pop()
 
 
 def mutants_of(relpath):
@@ -143,6 +152,9 @@ def make_mutant(src, kind, mid):
     elif kind == 'ifnot':
         desc = 'negate if-condition'
         node.test = ast.UnaryOp(op=ast.Not(), operand=node.test)
+    elif kind == 'delstmt':
+        desc = 'delete statement'
+        replace(node, ast.copy_location(ast.Pass(), node))
     ast.fix_missing_locations(tree)
     return ast.unparse(tree), desc
 
@@ -175,8 +187,13 @@ def run_mutant(job):
         res['ran'] = []
         t0 = time.time()
         for pid in PROPS[relpath]:
-            r = subprocess.run(['/venv/bin/python', '-m', 'pbt.run', pid, '--tier', 'quick', '--procs', '2'], cwd=ROOT, env=env, stdout=subprocess.PIPE,
-                               stderr=subprocess.STDOUT, text=True)
+            try:
+                r = subprocess.run(['/venv/bin/python', '-m', 'pbt.run', pid, '--tier', 'quick', '--procs', '2'], cwd=ROOT, env=env, stdout=subprocess.PIPE,
+                                   stderr=subprocess.STDOUT, text=True, timeout=600)
+            except subprocess.TimeoutExpired:
+                res['status'] = 'timeout'      # the mutant makes a check run for more than 10 minutes (a solver that never returns)
+                res['by'] = pid
+                break
             res['ran'].append([pid, r.returncode])
             if r.returncode == 1:
                 v = [l.strip() for l in r.stdout.splitlines() if l.strip().startswith('violated:')]
